@@ -77,7 +77,7 @@ def classify(rc):
     return "err"
 
 
-def run_bita(args, stdin_data=None, env=None, timeout=120, preload=None, strace_log=None, cwd=None):
+def run_bita(args, stdin_data=None, env=None, timeout=300, preload=None, strace_log=None, cwd=None):
     e = dict(os.environ)
     e["RUST_BACKTRACE"] = "0"
     e.pop("RUST_LOG", None)
@@ -95,7 +95,14 @@ def run_bita(args, stdin_data=None, env=None, timeout=120, preload=None, strace_
                            timeout=timeout, cwd=cwd, stdin=None if stdin_data is not None else subprocess.DEVNULL)
         return classify(p.returncode), p.returncode, p.stdout, p.stderr
     except subprocess.TimeoutExpired:
-        return "hang", None, b"", b""
+        # (the limit is generous on purpose: one run of a thorough tier on a machine that was busy with four other
+        # rehearsals once saw a 1 KiB clone under strace exceed 120 s; 150 repetitions of that very command took
+        # at most 0.4 s each - see DESIGN.md section 5)
+        try:
+            load = open("/proc/loadavg").read().split()[0]
+        except OSError:
+            load = "?"
+        return "hang", None, b"", ("no result after %d s (load average %s)" % (timeout, load)).encode()
 
 
 # ------------------------------------------------------------------------------ scenario generation
